@@ -50,7 +50,7 @@ def _mk(ver, mode, k, m, turns, verdicts_in, exc=False, shapes=None, cid="cx", k
 def cases(tier, seed):
     i = 0
     # exhaustive verdict matrices (v1)
-    for mode in ("dialog", "single_call", "general", "passthrough"):
+    for mode in ("dialog", "single_call", "general", "passthrough", "multi_step"):
         for k in (1, 2):
             for turns in (1, 2):
                 for vs in itertools.product(["ok", "block", "rewrite"], repeat=k * turns):
